@@ -150,6 +150,17 @@ def c01_programs(seed, tier):
     # (3c) half-defaulted 64-bit ranges
     for i, (mn, mx) in enumerate(((0, I64MAX), (I64MIN, 5), (I64MIN + 1, I64MAX), (-1, I64MAX), (I64MIN, I64MAX - 1))):
         out.append(prog(f"halfdefault{i}", [new(), pc(xyz("single") + [rec("intensity", "int", mn, mx)], 17, seed=seed + i), FIN]))
+    # (3d) non-finite and special floats, also in the very first point (the running bounds start from it)
+    NAN32, NAN64 = 0x7FC00000, 0x7FF8000000000000
+    specials32 = [NAN32, 0xFFC00001, 0x7F800000, 0xFF800000, 0x80000000, 0x00000001, 0x7F7FFFFF]
+    for i, first in enumerate(specials32[:4] if tier == "quick" else specials32):
+        pts = [[[0, first], [0, 0x3F800000], [0, 0x40000000], v_int(1)], [[0, 0x3F800000], [0, first], [0, NAN32], v_int(2)], [[0, 0x40400000], [0, 0x40800000], [0, first], v_int(3)]]
+        out.append(prog(f"special_first_f32_{i}", [new(), pc(xyz("single") + [rec("intensity", "int", 0, 9)], pts=pts), FIN]))
+    out.append(prog("special_first_f64", [new(), pc(xyz("double") + sph("double"), pts=[[[1, NAN64]] * 6, [[1, 0x3FF0000000000000]] * 6, [[1, 0xFFF0000000000000]] * 6]), FIN]))
+    # (3e) very narrow points with a constant record: one data packet holds far more than 65536 points
+    narrow = [rec("cartesianX", "sint", 0, 3, 0.5, 0.0), rec("cartesianY", "sint", 0, 3, 0.5, 0.0), rec("cartesianZ", "sint", 9, 9, 1.0, 0.0), rec("rowIndex", "int", 4, 4)]
+    for n in ([70000] if tier == "quick" else [65536, 65537, 70000, 200000]):
+        out.append(prog(f"narrow_{n}", [new(), pc(narrow, n, seed=seed), FIN]))
     # (4) empty file, empty point cloud, only blobs
     out.append(prog("empty", [new(), FIN]))
     out.append(prog("emptypc", [new(), pc(protos[0], 0), FIN]))
@@ -187,6 +198,8 @@ def c06_programs(seed, tier):
     residues = range(940, 1020, 4) if tier == "quick" else range(0, 1020, 4)
     for res in residues:
         out.append(prog(f"blobres{res}", [new(), blob(filler_for(res), 1), blob(r.choice([1, 5, 16, 200, 1100]), 2), blob(3, 3), FIN]))
+    # blobs near the end of a file with a few hundred pages in front of them
+    out.append(prog("late_blobs", [new(), blob(1600000, 1), blob(100, 2), image([rep("visual", 500, salt=3, mask=70)]), blob(9, 4), FIN]))
     # images of all four representations with and without mask, between point clouds
     kinds = [("visual", {}), ("pinhole", dict(focal=0.05, pw=1e-5, ph=1e-5, px=2.0, py=1.5)),
              ("spherical", dict(pw=0.01, ph=0.02)), ("cylindrical", dict(radius=2.5, py=1.0, pw=0.01, ph=0.02))]
